@@ -16,9 +16,9 @@ P = {
  "C03": ("other", "SSA dispatch/store/guard rules + results of C02/C04/C06/C07",
    "Decides the structural clauses of generic decoding: token-type dispatch table and sibling agreement, one container store per member on success paths, null rejection guard, depth arithmetic (10,000), offset re-basing. Whole-tree equality with encoding/json is an argument from these plus C04/C06/C07, not a computed fact.",
    "Does not decide equality of whole trees nor number values beyond C04's scope."),
- "C04": ("other", "table re-derivation (math/big), dominance rules on tier guards, E2 grammar product, structure-gated comparison with GOROOT strconv",
-   "Decides the literal grammar and returned offset of ReadFloat64 exactly (product construction), all 696+61+23 table entries against their big-integer definitions, the tier-dispatch guards, numeric side conditions, and constant/operator agreement of the ported arithmetic with strconv where the shapes match. Correct rounding of the arithmetic itself is NOT decided (no sound static argument in reach).",
-   "Trusted: the published correctness arguments of Eisel-Lemire and of strconv's decimal conversion; GOROOT's strconv as sibling."),
+ "C04": ("other", "table re-derivation (math/big), dominance rules on tier guards, E2 grammar product, lockstep SSA co-execution with GOROOT strconv, path rules on decimal-point and exponent bookkeeping",
+   "Decides the literal grammar and returned offset of ReadFloat64 exactly (product construction), all 696+61+23 table entries against their big-integer definitions, the tier-dispatch guards, numeric side conditions, that the ported arithmetic (ten functions and what they call) is the same program as the strconv of the GOROOT in use (co-execution of the two SSA forms along every path; anything that cannot be aligned is a failure), and that decimal.set counts every integer digit whether or not it fits the 800-digit buffer. Correct rounding as a mathematical fact is NOT decided: it is inherited from the trusted reference. One known finding (exponent saturation beyond 100 KB literals) is listed in known_findings.txt and printed as KNOWN-FINDING.",
+   "Trusted: the published correctness arguments of Eisel-Lemire and of strconv's decimal conversion; GOROOT's strconv (go1.23 line) as reference. Float tier policies that deviate from strconv are reported even when correct."),
  "C05": ("other", "E2 grammar product + interval rules on SSA",
    "Decides exactly the token grammar and success offset of all six integer readers for every input (product construction), the range guards as intervals on success paths (both directions), absence of lossy narrowing on success paths, and the hand-derived side conditions of ReadUint64's two loops. The arithmetic exactness of the wrap-around test is not decided.",
    "The relational fact `val*10+v wrapped <=> newVal < val` is trusted under its checked precondition."),
@@ -35,8 +35,8 @@ P = {
    "At each of the handler call sites a non-nil error leads, without any further handler call, to a return of that very error value (no wrap, no conversion); the exported wrappers pass it through in both buffer branches.",
    "Go semantics of interface values (identity preserved by plain return)."),
  "C10": ("other", "overflow-aware linear arithmetic on handler offsets, E1/E2 index and stack obligations, call-graph cycle guards, LTS progress",
-   "Decides: handler offsets are range-checked without wrap-around before reaching the cursor; every data[p] read, stack access and key slice of the machines and hand-written scanners is in range; recursion is guarded by a depth check; every machine cycle consumes input; success offsets lie in [0,len]. Panic-freedom of the remaining hand-written arithmetic (internal/fp decimal code) and termination of its shift loops are NOT decided.",
-   "~75 compiler-unproven bounds checks outside the scanner domain are listed as not decided."),
+   "Decides: handler offsets are range-checked without wrap-around before reaching the cursor; every data[p] read, stack access and key slice of the machines and hand-written scanners is in range; recursion is guarded by a depth check; every machine cycle consumes input; success offsets lie in [0,len]; and (R10i) EVERY index/slice expression in every library function reachable from the API is accounted for by one of: the machine rules, the scanner interpreter, the compiler's own bounds-check elimination, a local Fourier-Motzkin argument over len/cap facts, or identity with strconv. Termination of the shift loops in internal/fp is NOT decided.",
+   "Trusted: the compiler's prove pass, strconv's index safety, a short table of stdlib value ranges, no wrap-around in length arithmetic."),
  "C11": ("proof", "E1+E3 inclusion between the two extracted machines with differing stack use",
    "For every input on which the model of skipValue succeeds at offset k, the model of skipValueFast succeeds at k (pushdown product driven by skipValue).",
    "Same trusted base as C01."),
@@ -56,16 +56,16 @@ P = {
    "No store/append/copy through any alias of an input; results do not alias inputs; destination slices only grow and are written at indices >= original length; scratch buffers are truncated before use.",
    "Flow-insensitive alias closure (no pointer analysis available in x/tools v0.29.0)."),
  "C17": ("other", "SSA structural rules on the StdLibCompatible helpers",
-   "Argument immutability, type-switch coverage and sibling agreement, rune pass-through and width advance, append semantics of the bytes variant.",
+   "Argument immutability; every element stored is the conversion of the element read (inline or through a helper whose returns satisfy the same relation); every trip round the decoding loop appends exactly the encoding of the decoded rune once and advances by its width; append semantics of the bytes variant.",
    "utf8.DecodeRune returns (U+FFFD,1) exactly on invalid bytes (trusted stdlib summary)."),
  "C18": ("proof", "who-may-write analysis over SSA, closed-world callee list",
    "No instruction outside init stores to a package-level variable or through a pointer derived from one; inputs are never written; every external callee is on a list of stateless stdlib functions; no goroutines, unsafe, reflect.",
    "Listed stdlib functions have no observable package-level mutable state."),
- "C19": ("other", "compiler escape diagnostics + SSA allocation-site classification",
-   "Every potential heap-allocation site reachable from the listed entry points is error-path-only or capacity-guarded; the slow-path decimal stays on the stack.",
+ "C19": ("other", "compiler escape diagnostics + SSA allocation-site classification + model walk of the Decode-null path",
+   "Every potential heap-allocation site reachable from the listed entry points is error-path-only or capacity-guarded; the slow-path decimal stays on the stack; on `ws* null` the typed reader that fails before the null fallback succeeds returns a sentinel (or a non-allocating constructor), so Decode*(null) allocates nothing either.",
    "Compiler escape analysis output (-gcflags=-m) of the installed toolchains."),
- "C20": ("other", "SSA hint-refresh post-dominance, remainder-size taint, stack-growth normal form",
-   "Necessary conditions of linear memory: every size hint is refreshed between uses on every path, no allocation is sized by the unconsumed remainder of the input, stack growth is exact need. The asymptotic bound as such is not decided.",
+ "C20": ("other", "SSA hint-refresh post-dominance, remainder-size taint, stack-growth bound",
+   "Necessary conditions of linear memory: every size hint is refreshed between uses on every path (or only ever holds constants), no allocation is sized by the unconsumed remainder of the input, stack growth is bounded by twice the depth reached plus a constant. The asymptotic bound as such is not decided.",
    "Amortisation of append; sync.Pool misses."),
 }
 
